@@ -79,19 +79,19 @@ theorem advance_blocks (x : S) : x.advance.blocks = x.blocks := by unfold TS.adv
 
 /-- a scorer on the pivot `pd < T`: after `advance` it is behind the pivot, one posting shorter,
 and its skip reader is not ahead of its new document's block -/
-theorem advance_on_pivot (x : S) (hw : WFT x) (pd : Nat) (hd : x.doc = pd) (hpd : pd < T) (hj : JOK pd x) :
+theorem advance_on_pivot (x : S) (hw : WFC x) (pd : Nat) (hd : x.doc = pd) (hpd : pd < T) (hj : JOK pd x) :
     pd < x.advance.doc ∧ x.advance.rest.length + 1 = x.rest.length ∧ JOK pd x.advance := by
   have hne : x.rest ≠ [] := by
     intro hnil
     have := doc_eq_T_of_nil hnil
     omega
-  have hrest := advance_rest_seekP x hw.wf.asc hne
+  have hrest := advance_rest_seekP x hw.asc hne
   have hgt : pd < x.advance.doc := by
     by_cases hr : x.advance.rest = []
     · rw [doc_eq_T_of_nil hr]; exact hpd
     · obtain ⟨p, hp, hpd'⟩ := doc_mem hr
       rw [hrest] at hp
-      have := seekP_ge_of_asc hw.wf.asc _ p hp
+      have := seekP_ge_of_asc hw.asc _ p hp
       omega
   refine ⟨hgt, ?_, ?_⟩
   · rw [advance_rest]
@@ -153,7 +153,7 @@ theorem lenSum_map_advance : ∀ (l : List S), (∀ x, x ∈ l → x.advance.res
 
 /-- `advance_all_scorers_on_pivot` after a successful alignment -/
 theorem advance_total {θ : Nat} {arr2 : List S} {pl pd : Nat} (hpd : pd < T) (hpl : 0 < pl) (hlen : pl ≤ arr2.length)
-    (hwf : ∀ x, x ∈ arr2 → WFT x) (hj : ∀ x, x ∈ arr2 → JOK pd x)
+    (hwf : ∀ x, x ∈ arr2 → WFC x) (hj : ∀ x, x ∈ arr2 → JOK pd x)
     (hdead : ∀ d, d < pd → massLe arr2 d ≤ θ) (hon : ∀ x, x ∈ arr2.take pl → x.doc = pd) :
     TInv pd θ (advanceAllOnPivot arr2 pl) ∧ lenSum (advanceAllOnPivot arr2 pl) < lenSum arr2 := by
   unfold advanceAllOnPivot
